@@ -90,7 +90,7 @@ func (r *Response) sendBackResponse(
 		http.Redirect(w, req, fmt.Sprintf("%s?%s", r.AcsUrl, BuildRedirectQuery(string(respData), r.RelayState, r.SigAlg, r.Signature)), http.StatusFound)
 		return
 	default:
-		//TODO: no binding
+		r.ErrorFunc(fmt.Errorf("unsupported binding: %s", r.ProtocolBinding))
 	}
 }
 
